@@ -294,6 +294,16 @@ class Runner(object):
                         if item._status_ in DEL_STATUSES or back is not obj:
                             self.violation('c12-item-without-backref', op, '%r.%s contains %r (status %s) whose %s is %r' % (
                                 obj, attr.name, item, item._status_, attr.reverse.name, back))
+        # C14: two live objects of the session with one primary key or one value of a unique attribute
+        keyed = {}
+        for obj in objects:
+            if obj._status_ in DEL_STATUSES: continue
+            ks = [('id', obj._pkval_)] if obj._pkval_ is not None else []
+            ks += [(attr.name, obj._vals_.get(attr)) for attr in obj._simple_keys_ if obj._vals_.get(attr) is not None]
+            for k in ks:
+                other = keyed.setdefault((type(obj),) + k, obj)
+                if other is not obj:
+                    self.violation('c14-session-duplicate-key', op, '%r and %r are both live with %s=%r (op result %s)' % (other, obj, k[0], k[1], res))
         # queue: objects that have to be saved are queued
         for obj in objects:
             st = obj._status_
@@ -302,7 +312,29 @@ class Runner(object):
                 if pos is None or pos >= len(cache.objects_to_save) or cache.objects_to_save[pos] is not obj:
                     self.violation('queue-not-queued', op, '%r has status %s but is not in objects_to_save (op result %s)' % (obj, st, res))
 
+    def check_ddl(self):
+        """The tables Pony created carry the constraints the database model assumes (PRIMARY KEY on id, UNIQUE per unique attribute)."""
+        con = sqlite3.connect(self.path, timeout=5)
+        try:
+            for i, e in enumerate(self.schema['ents']):
+                info = con.execute('pragma table_info("E%d")' % i).fetchall()
+                if [r[1] for r in info if r[5]] != ['id']:
+                    self.violation('c14-ddl-missing-constraint', None, 'E%d: primary key columns %r' % (i, [r[1] for r in info if r[5]]))
+                uniq = set()
+                for ix in con.execute('pragma index_list("E%d")' % i).fetchall():
+                    if ix[2]:
+                        cols = [r[2] for r in con.execute('pragma index_info("%s")' % ix[1]).fetchall()]
+                        if len(cols) == 1: uniq.add(cols[0])
+                for j, a in enumerate(e['attrs']):
+                    if a['k'] != 'set' and a['uniq'] and 'a%d' % j not in uniq:
+                        self.violation('c14-ddl-missing-constraint', None, 'E%d.a%d is unique in the model but has no UNIQUE index' % (i, j))
+        finally:
+            con.close()
+
     def check_dump(self, op, res, d):
+        if self.last_dump is None and not getattr(self, 'ddl_checked', False):
+            self.ddl_checked = True
+            self.check_ddl()
         for i, tab in enumerate(d):
             e = self.schema['ents'][i]
             pks = [r[0] for r in tab]
